@@ -85,6 +85,16 @@ def base64_decode(I, args, ins):
     info = string_info(I, s)
     if info is not None and info[0] == 'b64of':
         return TupleV((tag_bytes(I, info[1], 'b64dec'), None))
+    dcache = ctx.ghost.setdefault('b64deccache', {})
+    if str(s) in dcache:
+        return dcache[str(s)]
+    r = _b64_decode_sym(I, s)
+    dcache[str(s)] = r
+    return r
+
+
+def _b64_decode_sym(I, s):
+    ctx = I.ctx
     dec = ctx.ghost.get('b64dec', {}).get(str(s))
     if dec is not None:
         return TupleV((I.make_slice(dec), None))
@@ -156,8 +166,7 @@ def xml_unmarshal(I, args, ins):
     info = bytes_info(I, buf)
     ctx.event('xml.Unmarshal', t, info[0] if info else None)
     if info is not None and info[0] == 'marshal' and info[1] == t:
-        ctx.store_(ptr, info[2])
-        return None
+        return decode_into(I, t, ptr, info[2])
     if info is not None and info[0] == 'serialize':
         r = UNMARSHAL_ELEMENT_HOOK(I, info, t, ptr)
         if r is not NotImplemented:
@@ -168,6 +177,52 @@ def xml_unmarshal(I, args, ins):
     n[0] += 1
     ctx.store_(ptr, ctx.fresh(t, 'xml%d' % n[0]))
     return None
+
+
+def decode_into(I, t, ptr, value):
+    """Decode `value` (a Go value of type t) into *ptr the way encoding/xml does: through the type's
+    UnmarshalXML method when it has one (the decoder then fills the alias struct it is handed)."""
+    ctx = I.ctx
+    fn = I.prog.method('*' + t, 'UnmarshalXML')
+    fj = I.prog.funcs.get(fn) if fn else None
+    if fj is None or not fj.get('hasbody'):
+        ctx.store_(ptr, value)
+        return None
+    dec = ctx.alloc(StructV([]), 'xml.Decoder')
+    ctx.ghost.setdefault('xmldec', {})[dec.cell] = value
+    start = I.prog.zero('encoding/xml.StartElement')
+    return I.call_function(fn, [ptr, dec, start], None)
+
+
+@stub('(*encoding/xml.Decoder).DecodeElement')
+def xml_decode_element(I, args, ins):
+    ctx = I.ctx
+    dec = ctx.force(args[0])
+    v = ctx.force(args[1])
+    value = ctx.ghost.get('xmldec', {}).get(dec.cell if dec is not None else None)
+    if value is None:
+        raise Inconclusive('DecodeElement on an unknown decoder')
+    if not isinstance(v, Iface):
+        raise Inconclusive('DecodeElement target')
+    p = ctx.force(v.val)
+    # v is *struct{...; *Alias} or **struct{...}
+    tgt = ctx.load(p)
+    while isinstance(ctx.force(tgt), Ptr):
+        p = ctx.force(tgt)
+        tgt = ctx.load(p)
+    if isinstance(tgt, StructV):
+        # find the embedded alias pointer: a pointer field whose pointee has the shape of `value`
+        for f in tgt:
+            f = ctx.force(f) if isinstance(f, (Lazy, Ptr)) else f
+            if isinstance(f, Ptr):
+                cur = ctx.load(f)
+                if isinstance(cur, StructV) and isinstance(value, StructV) and len(cur) == len(value):
+                    ctx.store_(f, value)
+                    return None
+        if isinstance(value, StructV) and len(tgt) == len(value):
+            ctx.store_(p, value)
+            return None
+    raise Inconclusive('DecodeElement: no alias target found')
 
 
 def _no_hook(I, info, t, ptr):
